@@ -47,6 +47,15 @@ def check(ctx):
                     'compare_item_names laws on three names of different lengths over {a,b,0,1,2} (contains a2 / a10 / a1b)')
     ctx.native_enum('value-compare-string-triples', dict(module='chardata', check='cmp_strings_sep', alphabet=b'0129.\xff', maxlen=9 if thorough else 8),
                     'CharacterData::cmp laws on three String values of different lengths over {0,1,2,9,.} (numeric-looking and other texts)')
+    # the sort of one node: unchanged where reordering is not permitted, otherwise a permutation of the element children in the order of
+    # the file version (unit sortnode = ElementRaw::sort over the node reading of unit insertrange)
+    from contracts import insertrange
+    from vxlib.rustsrc import Lost
+    try:
+        ctx.verus_unit(insertrange.make_unit(ctx.scratch.dir, which='sort'), finder=None)
+        ctx.native_ground('lib', 'tables_wf', 'complete', 'wf_tables() assumed by the lookup contracts unit sortnode calls, evaluated on the real statics')
+    except Lost as e:
+        ctx.undecided.append('sortnode reason=lost anchor: %s' % e)
     # API-level bounded check of the statement itself on small sibling sets (native)
     b = ctx.native()
     rc, out, err, secs = run([b, 'api', 'sort3', '3'], timeout=900)
@@ -112,6 +121,6 @@ def check(ctx):
             ctx.add(Obligation(ctx.prop, name, 'native-eval', 'bounded', 'discharged', seconds=secs, bound=bound,
                                detail='after Element::sort the children are in the specification order of the file version (pairwise oracle), and sorting twice equals sorting once [%s]' % last))
     return ctx.finish(
-        explanation='`sort` is sort_by over Element::cmp, a lexicographic chain; "result independent of the previous order" and "never fails" need every link to be a total preorder consistent with equality. Complete Kani harnesses (all u64 / all f64 bit patterns, concrete kinds) discharge the laws for CharacterData::cmp on every kind triple CBMC can carry; the item-name link and the API-level statement are checked on small sibling sets natively (bounded). That sort only permutes, skips ordered containers and keeps indexes intact is element-graph code and not under contract.',
+        explanation='Unit sortnode: Verus proves on the real text of ElementRaw::sort, over the node reading of unit insertrange (content as a Vec of handles, the recursive sort of a child and std sort_by as leaves -- sort_by ASSUMED to return a permutation ordered by the key) that nothing moves where reordering is not permitted (character / mixed content, ordered containers, fewer than two children), and that otherwise the new content consists of exactly the old element children, permuted, in the order of their positions in the specification of the file version (the property whose violation was defect 992d4fd). `sort` is sort_by over Element::cmp, a lexicographic chain; "result independent of the previous order" and "never fails" need every link to be a total preorder consistent with equality. Complete Kani harnesses (all u64 / all f64 bit patterns, concrete kinds) discharge the laws for CharacterData::cmp on every kind triple CBMC can carry; the item-name link and the API-level statement are checked on small sibling sets natively (bounded). That sort only permutes, skips ordered containers and keeps indexes intact is element-graph code and not under contract.',
         checker_cmd='cargo kani --harness cmp_laws_*; vxnative api sort3 3',
         trusted_base=['Kani 0.68 + CBMC 6.11', 'str::cmp / String::cmp of std (Enum x Enum and String x String arms)', 'EnumItem::to_str injective (C18)'])
